@@ -146,6 +146,17 @@ def _b_gen(step, env):
     return gen()
 
 
+@core.builder('c04_iterobj')
+def _b_iterobj(step, env):
+    """An iterable *object* whose __iter__ does the work up front (open a connection, run a query) and may fail there."""
+    class Query:
+        def __iter__(self):
+            if env.cb_fault is not None and env.cb_target == 'source-iter' and env.cb_at == 0:
+                env.cb_fault.fire()
+            return iter([{'a': i, 'b': 't%d' % i} for i in range(step['n'])])
+    return Query()
+
+
 @core.builder('c04_load_csv')
 def _b_load_csv(step, env):
     p = os.path.join(env.scratch, 'in.csv')
@@ -207,8 +218,15 @@ PIPELINES = {
     'conditional': [SRC, S('add_field', 'z', 'integer', 7), {'op': 'c04_cb', 'which': 'cond_predicate', 'id': 'cond_predicate'},
                     S('delete_fields', ['z']), {'op': 'c04_cb', 'which': 'cond_factory', 'id': 'cond_factory'},
                     S('dump_to_path', {'$path': 'dump'})],
+    # a step fails on rows of a resource that a later step deletes; a dumper sits in between
+    'delete_later': [SRC, S('add_field', 'z', 'integer', 7), S('dump_to_path', {'$path': 'dump'}), S('delete_resource', 'r1'),
+                     S('add_field', 'y', 'integer', 8)],
+    'delete_later2': [SRC, S('add_field', 'z', 'integer', 7), S('delete_resource', 'r2'), S('dump_to_path', {'$path': 'dump'})],
+    'iterobj': [{'op': 'c04_iterobj', 'n': 5}, S('add_field', 'z', 'integer', 7), S('dump_to_path', {'$path': 'dump'})],
+    'iterobj_second': [SRC, {'op': 'c04_iterobj', 'n': 3}, S('dump_to_path', {'$path': 'dump'})],
     'generator': [{'op': 'c04_gen', 'n': 130}, S('add_field', 'z', 'integer', 7), S('dump_to_path', {'$path': 'dump'})],
 }
+DRAINED = {'delete_later', 'delete_later2'}
 ARTEFACTS = {   # step op -> how to detect that it committed
     'dump_to_path': 'dp', 'dump_to_zip': 'zip', 'stream': 'ndjson', 'checkpoint_first': 'cp',
 }
@@ -262,6 +280,8 @@ def run_case(case):
             env.cb_fault, env.cb_target, env.cb_at = fault, inject[1], inject[2]
             if inject[1] == 'source':
                 fail_index = 0
+            elif inject[1] == 'source-iter':
+                fail_index = [i for i, s in enumerate(steps) if s.get('op') == 'c04_iterobj'][0]
             else:
                 fail_index = [i for i, s in enumerate(steps) if s.get('id') == inject[1]][0]
         links = []
@@ -289,6 +309,12 @@ def run_case(case):
         committed = committed_artefacts(env, steps, positions)
     viol = []
     if not fault.fired:
+        if pipe in DRAINED and inject[0] == 'wrap' and inject[2][0] in ('row', 'end') and \
+                inject[1] <= [i for i, s_ in enumerate(PIPELINES[pipe]) if s_.get('op') == 'delete_resource'][0]:
+            # every row of every resource passes every step placed before a delete_resource (which reads what it deletes to
+            # its end): a step failing on such a row must get the chance to fail
+            return [('fault-skipped', '%s: the run returned normally and the failing step was never asked for that row - rows of '
+                     'a resource deleted further down were not pulled through the steps before it' % label)], 'violated', True
         return [], 'fault-not-reached', False
     if res[0] == 'ok':
         viol.append(('returned-normally', '%s: the run returned normally although the step raised' % label))
@@ -360,6 +386,8 @@ def cases_for(pipe, classes):
                 if s.get('op') == 'c04_cb':
                     for k in (0, 1, 2):
                         out.append({'pipe': pipe, 'cls': cls, 'entry': entry, 'inject': ['cb', s['id'], k]})
+                if s.get('op') == 'c04_iterobj':
+                    out.append({'pipe': pipe, 'cls': cls, 'entry': entry, 'inject': ['cb', 'source-iter', 0]})
                 if s.get('op') == 'c04_gen':
                     for k in (0, 50, 99, 100, 129):
                         out.append({'pipe': pipe, 'cls': cls, 'entry': entry, 'inject': ['cb', 'source', k]})
